@@ -5,6 +5,7 @@ import (
 	"fmt"
 	"os"
 	"path/filepath"
+	"runtime"
 	"sort"
 	"sync"
 	"sync/atomic"
@@ -24,6 +25,7 @@ import (
 //   - a block whose content was changed while it was held,
 //   - FreeBlock of a held block failing, an index out of range, an unexpected error,
 //   - ErrExhausted although G*Hold < Count() (at no instant all blocks can be taken).
+//
 // The final bookkeeping (held sets, counters, reopened state) is checked in Coq.
 func runConc(c Case, s *hx.Sink) string {
 	st := &store{c: c, dir: flags.Out}
@@ -62,6 +64,9 @@ func runConc(c Case, s *hx.Sink) string {
 			fmt.Fprintf(os.Stderr, "case %d: %s: %v\n", c.ID, what, detail)
 		}
 		vmu.Unlock()
+	}
+	if count <= 4096 {
+		exhaustionPhase(c, b, count, viol, s)
 	}
 	mayExhaust := c.G*c.Hold >= count
 	held := make([][]int64, c.G)
@@ -178,4 +183,121 @@ func runConc(c Case, s *hx.Sink) string {
 	}
 	return fmt.Sprintf("CConc %s (mkConc %s %s %s %s %s %s %s %s %s %s %s %s)", hx.N(c.ID), z(page), z(c.Bs), z(c.Size), hx.Bool(c.Fit),
 		z(int64(count)), hx.List(hs), z(arranged.Load()), z(freed.Load()), z(int64(avail)), z(ravail), ranges(rset), hx.List(codes))
+}
+
+// exhaustionPhase: "ErrExhausted exactly when nothing is free" under concurrency.  The allocator is filled; in every
+// round one goroutine frees its block and arranges a block again while three others keep calling ArrangeBlock (and
+// fail, the allocator being full).  Exactly one block is free from the FreeBlock on, so ONE of the calls that overlap
+// must get it: when the freeing goroutine is told ErrExhausted and, after every other call in flight has returned,
+// nobody else has obtained the block either, the block was free during the whole failed call.  The phase leaves the
+// allocator empty, as it found it.
+func exhaustionPhase(c Case, b *cbytes.Blocks, count int, viol func(int, string, any), s *hx.Sink) {
+	for i := 0; i < count; i++ {
+		if _, err := b.ArrangeBlock(); err != nil {
+			viol(6, "ArrangeBlock: error while blocks are free (filling the empty allocator)", fmt.Sprintf("after %d of %d: %v", i, count, err))
+			break
+		}
+	}
+	defer func() {
+		for i := 0; i < count; i++ {
+			b.FreeBlock(i)
+		}
+	}()
+	if b.Available() != 0 {
+		return
+	}
+	const H = 3
+	var run, quit atomic.Bool
+	var calls, done [H]atomic.Int64
+	var got [H]atomic.Int64
+	var wg sync.WaitGroup
+	for h := 0; h < H; h++ {
+		got[h].Store(-1)
+		wg.Add(1)
+		go func(h int) {
+			defer wg.Done()
+			defer func() {
+				if r := recover(); r != nil {
+					viol(7, "panic in a concurrent call", fmt.Sprint(r))
+					done[h].Store(1 << 60)
+					calls[h].Store(1 << 60)
+				}
+			}()
+			for !quit.Load() {
+				if !run.Load() || got[h].Load() >= 0 {
+					runtime.Gosched()
+					continue
+				}
+				calls[h].Add(1) // announced first, then run is read again: see the wait loop of the freeing goroutine
+				if run.Load() && got[h].Load() < 0 {
+					if idx, err := b.ArrangeBlock(); err == nil {
+						got[h].Store(int64(idx))
+					} else if h > 0 {
+						runtime.Gosched() // one caller hammers, the others leave the allocator's mutex some air
+					}
+				}
+				done[h].Add(1)
+			}
+		}(h)
+	}
+	rounds := 20000
+	if flags.Tier == "thorough" {
+		rounds = 200000
+	}
+	free := 0 // the block the freeing goroutine owns
+	hits := 0
+	for n := 0; n < rounds; n++ {
+		c0 := calls[0].Load()
+		run.Store(true)
+		for k := 0; k < 5000 && calls[0].Load() == c0; k++ { // let the others get going (bounded: a round without overlap is no harm)
+			if k%64 == 63 {
+				runtime.Gosched()
+			}
+		}
+		if err := b.FreeBlock(free); err != nil {
+			viol(3, "FreeBlock of a held block failed", fmt.Sprintf("idx=%d err=%v", free, err))
+			break
+		}
+		idx, err := b.ArrangeBlock()
+		run.Store(false)
+		for h := 0; h < H; h++ { // wait until no call of the others is in flight (done is read first)
+			for {
+				d := done[h].Load()
+				if calls[h].Load() == d {
+					break
+				}
+				runtime.Gosched()
+			}
+		}
+		other := -1
+		for h := 0; h < H; h++ {
+			if g := got[h].Swap(-1); g >= 0 {
+				if other >= 0 || err == nil {
+					viol(1, "ArrangeBlock handed out an index that is still allocated", g)
+				}
+				other = int(g)
+			}
+		}
+		switch {
+		case err == nil:
+			free = idx
+		case other >= 0:
+			free = other
+			hits++
+		default:
+			viol(6, "ArrangeBlock: ErrExhausted while a block was free during the whole call",
+				fmt.Sprintf("round %d: the allocator was full, one block was freed, the following ArrangeBlock of the same goroutine failed (%v) and none of the %d overlapping callers obtained the block", n, err, H))
+			if idx, err := b.ArrangeBlock(); err == nil {
+				free = idx
+			} else {
+				n = rounds
+			}
+		}
+	}
+	quit.Store(true)
+	wg.Wait()
+	s.Count(fmt.Sprintf("conc:exhaustion-rounds:%d", rounds))
+	if hits > 0 {
+		s.Count("conc:exhaustion-phase:block-taken-by-an-overlapping-caller")
+	}
 }
